@@ -4,4 +4,6 @@ mod treap_node;
 
 pub use print::TreePrinter;
 pub use treap::Treap;
+#[cfg(feature = "verif")]
+pub use treap_node::verif_reset_priorities;
 pub use treap_node::{TreapItem, TreapItemSized, TreapNode};
